@@ -108,7 +108,7 @@ Definition ks_reset (s : kstream) : kstream :=
   mk_ks (s_total s) 0 DNone [] None 0 None None 0 false None.
 
 (** what one update receives: the sample row, and the bootstrap divergences this call would draw *)
-Definition sx := (point * list F)%type.
+Notation sx := (point * list F)%type (only parsing).
 
 (** _inner_set_reference(ary, "stream"): reset() (dynamic dispatch: the streaming reset, so
     samples_since_reset and the drift state restart too), build, critical value with
@@ -186,7 +186,7 @@ Record kbatch := mk_kb {
 Definition kb_init : kbatch := mk_kb 0 0 DNone None None None None false None.
 
 (** what one call receives: the batch, and the bootstrap divergences this call would draw *)
-Definition bx := (list point * list F)%type.
+Notation bx := (list point * list F)%type (only parsing).
 
 (** _inner_set_reference(ary, "batch"): reset() (the batch reset: batches_since_reset = 0, state
     None), build, critical value with sample_size = sum(ref_counts) *)
@@ -252,5 +252,6 @@ Arguments kstream : clear implicits.
 Arguments kbatch : clear implicits.
 Arguments kdq_params : clear implicits.
 Arguments bop : clear implicits.
-Arguments sx : clear implicits.
-Arguments bx : clear implicits.
+(** input types (only-parsing abbreviations, so that no alias constant occurs in terms) *)
+Notation sx N := (point N * list (F N))%type (only parsing).
+Notation bx N := (list (point N) * list (F N))%type (only parsing).
